@@ -588,6 +588,9 @@ def b_pad(P, s, a, b, c, name):
     pads = (pl, pr) if t.ndim == 3 else (pl, pr, c % 2, b % 2)
     if mode != "constant" and t.ndim == 4 and t.shape[-2] < 2:
         pads = (pl, pr)
+    if mode == "constant":
+        fill = [0.0, 0.0, 1.0, -0.5, 3.0, 1e-3][(a // 5 + b + c) % 6]  # the fill value is a VALUE, not a code
+        return dict(f=lambda t: F.pad(t, pads, mode=mode, value=fill), ops=[i], klass="move")
     return dict(f=lambda t: F.pad(t, pads, mode=mode), ops=[i], klass="move")
 
 
